@@ -6,8 +6,13 @@
 EXTENDS Naturals, Integers, Sequences, UniTable
 
 Printable == " !\"#$%&'()*+,-./0123456789:;<=>?@ABCDEFGHIJKLMNOPQRSTUVWXYZ[\\]^_`abcdefghijklmnopqrstuvwxyz{|}~"
-CharCode == [c \in {SubSeq(Printable, i, i) : i \in 1..Len(Printable)} |->
-               31 + CHOOSE i \in 1..Len(Printable) : SubSeq(Printable, i, i) = c]
+\* a few non-ASCII word characters that names in the generators may contain (TLC strings hold UTF-16 units)
+ExtChars == "ößſïé²"
+ExtCodes == <<246, 223, 383, 239, 233, 178>>
+CharCode == [c \in {SubSeq(Printable, i, i) : i \in 1..Len(Printable)} \cup {SubSeq(ExtChars, i, i) : i \in 1..Len(ExtChars)} |->
+               IF \E i \in 1..Len(Printable) : SubSeq(Printable, i, i) = c
+               THEN 31 + CHOOSE i \in 1..Len(Printable) : SubSeq(Printable, i, i) = c
+               ELSE ExtCodes[CHOOSE i \in 1..Len(ExtChars) : SubSeq(ExtChars, i, i) = c]]
 StrCps(s) == [i \in 1..Len(s) |-> CharCode[SubSeq(s, i, i)]]
 
 \* \s and \w are Unicode-aware in the real lexer; the non-ASCII part comes from the generated table UniTable
